@@ -32,7 +32,7 @@ CHECKS = {
             "The count algebra (what each object contributes, min(n,total), monotone, n>total = unlimited) is an invariant of the "
             "model for every enumerated map and every n; the real attribute counts are compared with the model's prediction after "
             "every replayed call, and passed_objects(total+1) with the unrestricted calculation.",
-            "DESIGN.md 3/C14", "TLA+ model checking (TLC) + spec-to-impl replay of model-predicted counts"),
+            "DESIGN.md 3/C14", "TLA+ model checking (TLC) + spec-to-impl replay of model-predicted counts + trace validation of recorded catch conversions"),
     "C15": ("spec/Gradual.tla + MC_Gradual.tla; harness gradual-replay", "model_checking",
             "The iterator protocol (nth(n) = n+1 next calls, len = values to come, None exactly past the end, fused; wrapper: "
             "min(n+1, remaining), last = all) is an invariant over all call sequences of the model; Some/None and len() of the real "
